@@ -1,4 +1,4 @@
-import KrakenModel.Proof.C19Progress
+import KrakenModel.Proof.C19Slots
 /-
   C19  A swarm with a reachable seeder converges to the exact blob.
 
@@ -134,20 +134,166 @@ theorem progress_possible (a b i : Nat) (pa pb : Peer)
 
 end
 
+theorem run_connsOK (crc : Bytes → Nat) :
+    ∀ (sched : List Swarm.Action) (s : Swarm), ConnsOK s → ConnsOK (sched.foldl (Swarm.step crc) s) := by
+  intro sched
+  induction sched with
+  | nil => intro s hs; exact hs
+  | cons a rest ih => intro s hs; exact ih _ (step_connsOK crc hs a)
+
+section
+variable (crc : Bytes → Nat) (pl : Nat) (blob : Bytes) (hpl : 0 < pl) (cfg : Cfg) (seeders : List Bool)
+  (agents : Nat) (sched : List Swarm.Action) (hsep : SepSched crc pl blob sched)
+include hpl hsep
+
+/-- **C19 (7) progress without the `CanFetch` hypothesis — still PARTIAL (possibility form).**
+    After every schedule and fault sequence, whatever the connection tables, pipelines and
+    blacklists look like: if agent `a` is present and misses piece `i`, some other present, honest
+    peer `b` reports complete, and the limits are not zero, then there is a finite sequence of
+    enabled actions — first only the scheduler's own time-driven ones (connections dropped, which
+    forgets their requests: preemption / ConnTTI / ConnTTL / ClearPeer; two blacklist entries
+    expiring), then connect / request / deliver / the WritePiece steps — after which `a` holds piece
+    `i`, has lost none and misses strictly fewer pieces.  So no reachable state is a dead end for a
+    reachable seeder; that the real scheduler takes such a path in time is decided by the swarms. -/
+theorem progress_always_possible (a b i : Nat) (pa pb : Peer)
+    (ha : (Swarm.run crc (initSwarm cfg (MetaInfo.ofBlob crc pl blob) blob seeders agents) sched).peers[a]? = some pa)
+    (hb : (Swarm.run crc (initSwarm cfg (MetaInfo.ofBlob crc pl blob) blob seeders agents) sched).peers[b]? = some pb)
+    (hab : a ≠ b) (hpa : pa.present = true) (hpb : pb.present = true) (hhon : pb.corrupt = false)
+    (hseed : complete pb.tor = true) (hi : i < numPiecesOf pl blob.length)
+    (hmiss : pa.tor.pieces[i]? ≠ some .complete) (hpipe : 0 < cfg.pipeline) (hmax : 0 < cfg.maxConns) :
+    ∃ (acts : List Swarm.Action) (pa' : Peer), SepSched crc pl blob acts ∧
+      (acts.foldl (Swarm.step crc)
+        (Swarm.run crc (initSwarm cfg (MetaInfo.ofBlob crc pl blob) blob seeders agents) sched)).peers[a]? = some pa' ∧
+      pa'.tor.pieces[i]? = some .complete ∧
+      (∀ (j : Nat), pa.tor.pieces[j]? = some .complete → pa'.tor.pieces[j]? = some .complete) ∧
+      missingCount pa' < missingCount pa := by
+  have hs := swarm_ok crc pl blob hpl cfg seeders agents sched hsep
+  have hc : ConnsOK (Swarm.run crc (initSwarm cfg (MetaInfo.ofBlob crc pl blob) blob seeders agents) sched) :=
+    run_connsOK crc sched _ (init_connsOK cfg _ blob seeders agents)
+  have hcfg : ∀ (sched : List Swarm.Action) (s : Swarm), (sched.foldl (Swarm.step crc) s).cfg = s.cfg := by
+    intro sched
+    induction sched with
+    | nil => intro s; rfl
+    | cons x rest ih =>
+      intro s
+      simp only [List.foldl]
+      rw [ih]
+      cases x <;> simp only [Swarm.step]
+      case connect x y => cases s.peers[x]? <;> cases s.peers[y]? <;> simp only <;> (try split) <;> rfl
+      case disconnect x y => rw [dropEnd_cfg, dropEnd_cfg]
+      case unblacklist x y => cases s.peers[x]? <;> rfl
+      case expire x y j => cases s.peers[x]? <;> simp only <;> (try split) <;> rfl
+      case resend x f y j => cases s.peers[x]? <;> cases s.peers[y]? <;> simp only <;> (try split) <;> rfl
+      case reqfail x y j => cases s.peers[x]? <;> rfl
+      case leave x => cases s.peers[x]? <;> rfl
+      case request x y j => cases s.peers[x]? <;> cases s.peers[y]? <;> simp only <;> (try split) <;> rfl
+      case deliver x y j g =>
+        cases s.peers[x]? <;> cases hy : s.peers[y]? <;> simp only <;> (try split) <;> (try split) <;> rfl
+      case tstep x tid k => cases s.peers[x]? <;> rfl
+      case resolve x tid =>
+        cases hx : s.peers[x]? with
+        | none => rfl
+        | some px =>
+          simp only
+          cases px.inflight.find? (·.tid = tid) <;> cases (px.tor.threads[tid]?).bind (·.result) <;> simp only <;>
+            (try rfl)
+          rename_i d r
+          cases r <;> rfl
+  have hc0 : (Swarm.run crc (initSwarm cfg (MetaInfo.ofBlob crc pl blob) blob seeders agents) sched).cfg = cfg := by
+    unfold Swarm.run; rw [hcfg]; rfl
+  obtain ⟨acts1, pa1, pb1, hsep1, _, _, ha1, hb1, ta, pra, _, tb, prb, cb, hf⟩ :=
+    slots_freeable crc pl blob hc a b i pa pb ha hb hab (by rw [hc0]; exact hpipe) (by rw [hc0]; exact hmax)
+  have hs1 := swarmOK_foldl hpl acts1 _ hs hsep1
+  have hgb := (hs b pb hb).1
+  have hhas : hasPieceB pb1 i = true := by
+    have hall := all_complete_of_num hgb (hgb.cache_num (hgb.committed_cache hseed))
+    simp [hasPieceB, tb, hall i (by rw [hgb.len_pieces]; exact hi)]
+  obtain ⟨acts2, pa2, hsep2, ha2, hc2, hm2, hlt2⟩ :=
+    fetch_possible hpl hs1 a b i pa1 pb1 ha1 hb1 hab (by rw [pra]; exact hpa) (by rw [prb]; exact hpb)
+      (by rw [cb]; exact hhon) hhas hi (by rw [ta]; exact hmiss) hf
+  refine ⟨acts1 ++ acts2, pa2, ?_, ?_, hc2, ?_, ?_⟩
+  · intro act hact
+    rcases List.mem_append.mp hact with h | h
+    · exact hsep1 act h
+    · exact hsep2 act h
+  · rw [List.foldl_append]; exact ha2
+  · intro j hj; exact hm2 j (by rw [ta]; exact hj)
+  · have : missingCount pa1 = missingCount pa := by unfold missingCount; rw [ta]
+    omega
+
+end
+
 /-- **C19 (5)** The rejected delivery is followed by the request being marked invalid: resolving a
-    delivery whose WritePiece returned an error other than ErrPieceComplete puts (sender, piece)
-    into the receiver's invalid set and frees the request (so that it is re-sent elsewhere). -/
+    delivery whose WritePiece returned an error other than ErrPieceComplete moves the request
+    (sender, piece) — if there is one, outstanding or already timed out, as `MarkInvalid` requires —
+    into the receiver's invalid set (from where `resend` only re-sends it to other peers, (5b)); the
+    receiver's torrent is untouched.  An unsolicited payload leaves no trace in the request book. -/
 theorem rejected_delivery_marked_invalid (crc : Bytes → Nat) (s : Swarm) (a tid : Nat) (pa : Peer) (d : Delivery) (r : Res)
     (ha : s.peers[a]? = some pa) (hd : pa.inflight.find? (·.tid = tid) = some d)
-    (hr : (pa.tor.threads[tid]?).bind (·.result) = some r) (h1 : r ≠ .ok) (h2 : r ≠ .errComplete) :
+    (hr : (pa.tor.threads[tid]?).bind (·.result) = some r) (h1 : r ≠ .ok) (h2 : r ≠ .errComplete)
+    (hreq : (d.src, d.piece) ∈ pa.reqs ∨ (d.src, d.piece) ∈ pa.expired) :
     ∃ pa', (Swarm.step crc s (.resolve a tid)).peers[a]? = some pa' ∧ (d.src, d.piece) ∈ pa'.invalid ∧
-      pa'.tor = pa.tor := by
+      pa'.tor = pa.tor ∧ (∀ q, q ∈ pa'.reqs → q ∈ pa.reqs) := by
   have hlt : a < s.peers.length := lt_of_getElem?_some ha
+  have key : (d.src, d.piece) ∈ (markInvalid { pa with inflight := pa.inflight.filter (·.tid ≠ tid) } d.src d.piece).invalid ∧
+      (markInvalid { pa with inflight := pa.inflight.filter (·.tid ≠ tid) } d.src d.piece).tor = pa.tor ∧
+      (∀ q, q ∈ (markInvalid { pa with inflight := pa.inflight.filter (·.tid ≠ tid) } d.src d.piece).reqs → q ∈ pa.reqs) := by
+    unfold markInvalid
+    simp only
+    have hn : pa.reqs.count (d.src, d.piece) + pa.expired.count (d.src, d.piece) ≠ 0 := by
+      rcases hreq with h | h
+      · have := List.count_pos_iff.mpr h; omega
+      · have := List.count_pos_iff.mpr h; omega
+    rw [if_neg hn]
+    refine ⟨?_, rfl, fun q hq => (List.mem_filter.mp hq).1⟩
+    apply List.mem_append_left
+    rw [List.mem_replicate]
+    exact ⟨hn, rfl⟩
   simp only [Swarm.step, ha, hd, hr]
   cases r <;> first | exact absurd rfl h1 | exact absurd rfl h2 |
-    exact ⟨{ pa with inflight := pa.inflight.filter (·.tid ≠ tid), reqs := pa.reqs.erase (d.src, d.piece),
-                     invalid := (d.src, d.piece) :: pa.invalid },
-           by simp only [setPeer]; exact List.getElem?_set_self hlt, List.mem_cons_self .., rfl⟩
+    exact ⟨_, by simp only [setPeer]; exact List.getElem?_set_self hlt, key.1, key.2.1, key.2.2⟩
+
+/-- **C19 (5b)** `resendFailedPieceRequests` in the model: re-sending the failed request `(f, i)` never
+    goes to the peer `f` that failed it, and whenever a resend adds a request `(b, i)` it is justified by
+    a failed (invalid or expired) request of another peer for the same piece, `a` still misses the piece,
+    is connected to `b` and has a free pipeline slot.  (The guard is what the dispatch-level harness ties
+    to `Dispatcher.resendFailedPieceRequests`; the ordinary request path has no such guard, neither in
+    the code — `validRequest` only looks at pending requests — nor in the model.) -/
+theorem resend_avoids_failed_peer (crc : Bytes → Nat) (s : Swarm) (a f b i : Nat) (pa pa' : Peer)
+    (ha : s.peers[a]? = some pa) (ha' : (Swarm.step crc s (.resend a f b i)).peers[a]? = some pa') :
+    pa' = pa ∨
+    (pa'.reqs = (b, i) :: pa.reqs ∧ b ≠ f ∧ ((f, i) ∈ pa.invalid ∨ (f, i) ∈ pa.expired) ∧
+      b ∈ pa.conns ∧ hasPieceB pa i = false ∧ (b, i) ∉ pa.reqs ∧ pa'.invalid = pa.invalid ∧ pa'.tor = pa.tor) := by
+  simp only [Swarm.step, ha] at ha'
+  cases hb : s.peers[b]? with
+  | none => rw [hb] at ha'; simp only at ha'; rw [ha] at ha'; cases ha'; exact Or.inl rfl
+  | some pb =>
+    rw [hb] at ha'; simp only at ha'
+    split at ha'
+    · rename_i hc
+      simp only [setPeer] at ha'
+      rw [List.getElem?_set_self (lt_of_getElem?_some ha)] at ha'
+      cases ha'
+      refine Or.inr ⟨rfl, hc.2.1, hc.1, hc.2.2.2.1, ?_, hc.2.2.2.2.2.2.2, rfl, rfl⟩
+      have := hc.2.2.2.2.1
+      cases h : hasPieceB pa i
+      · rfl
+      · exact absurd h this
+    · rw [ha] at ha'; cases ha'; exact Or.inl rfl
+
+/-- in particular a resend aimed at the failing peer itself does nothing -/
+theorem resend_to_failed_peer_is_noop (crc : Bytes → Nat) (s : Swarm) (a f i : Nat) :
+    Swarm.step crc s (.resend a f f i) = s := by
+  simp only [Swarm.step]
+  cases ha : s.peers[a]? with
+  | none => rfl
+  | some pa =>
+    cases hf : s.peers[f]? with
+    | none => rfl
+    | some pf =>
+      simp only
+      rw [if_neg]
+      intro h; exact h.2.1 rfl
 
 /-! ### non-vacuity -/
 
